@@ -12,7 +12,8 @@
      calc_denotes          the C-shaped loop (logical indexes) computes the denotation of hwloc(7)
                            wherever the C integer arithmetic does not wrap ([chain_ok]);
      calc_list_denotes     a list of locations is the left fold of the operators (union, ~ x ^);
-     calc_single, calc_N_eq_len_I, calc_largest_roundtrip.
+     calc_single, calc_N_eq_len_I, calc_largest_roundtrip;
+     calc_parse_total      the calc-specific parsers are total on every NUL-terminated argument (never Oob).
    Refuted on the faithful model (each replayed on the real tool, see
    known_findings.txt): the classes [chain_ok] excludes. *)
 From Coq Require Import List NArith ZArith Bool String.
@@ -61,6 +62,31 @@ Example calc_parse_non_vacuous :
   /\ parse_chain nat ex_resolve 20 (cstr "3-") 0 = Ok (PChain (CEnd (RG 3 (-1) 1 false)))
   /\ parse_chain nat ex_resolve 20 (cstr "0.zz:0") 0 = Ok (PChain CFail).
 Proof. vm_compute. repeat split. Qed.
+
+(* ================= parsing arbitrary NUL-terminated arguments ================= *)
+(* hwloc_calc_parse_level_size, hwloc_calc_parse_range and the chained parsing of
+   hwloc_calc_append_object_range return (accept or reject) on EVERY NUL-terminated string, from every
+   start inside it, without a read outside the block ([Oob] is what ASan would report), for any level
+   resolver that itself stays inside the NUL-terminated copy of the type name it is given
+   (hwloc_type_sscanf: C11, where the 0xE0 over-read of hwloc__type_match is the known exception). *)
+Theorem calc_parse_total : forall (LV : Type) (resolve : list N -> res (option (lvl LV))) s n,
+  cstring s n -> (forall t, nul_terminated t -> resolve t <> Oob) ->
+  forall p, (p <= n)%N ->
+    (exists l, parse_level_size s p = Ok l /\ (p + l <= n)%N)
+    /\ (exists r, parse_range s p = Ok r)
+    /\ parse_chain LV resolve (S (List.length s)) s p <> Oob.
+Proof. exact calc_parsers_total.
+Qed.
+Print Assumptions calc_parse_total.
+
+Example calc_parse_total_non_vacuous :
+  cstring (cstr "1.1:0-1") 7 /\ (forall t, nul_terminated t -> ex_resolve t <> Oob).
+Proof.
+  split.
+  - change (cstr "1.1:0-1") with ([49; 46; 49; 58; 48; 45; 49] ++ 0 :: [])%N.
+    apply (cstring_app [49; 46; 49; 58; 48; 45; 49]%N []). repeat constructor; discriminate.
+  - intros t _. unfold ex_resolve. destruct t as [|c [|z t']]; try discriminate. destruct z; [destruct t'|]; discriminate.
+Qed.
 
 (* ================= location lists ================= *)
 (* arguments that are locations (not options) and are accepted: the state after the loop of main()
